@@ -30,7 +30,7 @@ def base_env():
     env.intrinsics[matches] = _s_matches
     env.classes['Settings']['fields'].update({
         'bypass_jira_check': 'bool', 'bypass_prefixes': 'set[str]', 'jira_keys': 'set[str]',
-        'jira_email': 'str', 'jira_account_url': 'str', 'jira_token': 'str', 'prefixes': 'set[str]',
+        'jira_email': 'str', 'jira_account_url': 'str', 'jira_token': 'str', 'prefixes': 'map[str,str]',
         'disable_version_checks': 'bool'})
     env.add_class('SrcBranch', fields={'prefix': 'str', 'jira_issue_key': 'opt[str]',
                                        'jira_project': 'opt[str]', 'name': 'str'})
@@ -314,9 +314,35 @@ def contracts(env):
     return [cir, gji, cp, cit, cfv, jc] + lems
 
 
+def native_fresh_ticket_each_evaluation():
+    """bounded stand-in: the gate judges the ticket AS IT IS NOW - two evaluations of the same pull request around an
+    edit of the ticket (fix versions corrected / broken, type changed) follow the ticket"""
+    problems, cases = [], 0
+    base = {'src': 'bugfix/PRJ-12-x', 'expected': ['4.3.18'], 'jira_keys': ['PRJ'], 'prefixes': {'Bug': 'bugfix'}}
+    good = {'type': 'Bug', 'fix': ['4.3.18']}
+    for before, after in ((dict(good, fix=['4.3.17']), good), (good, dict(good, fix=['9.9.9'])),
+                          (dict(good, type='Story'), good), (None, good), (good, None)):
+        cases += 1
+        first = _native_case(dict(base, issue=before))
+        second = _native_case(dict(base, issue=after))
+        # each evaluation must answer what the oracle says for the ticket of THAT moment
+        if first[1] not in first[0] or second[1] not in second[0]:
+            problems.append({'ticket_before': before, 'ticket_after': after, 'first': [sorted(first[0]), first[1]],
+                             'second': [sorted(second[0]), second[1]]})
+    return {'name': 'native_fresh_ticket_each_evaluation', 'scope': '5 ticket edits between two evaluations', 'cases': cases,
+            'distinct_nontrivial': cases, 'ok': not problems, 'problems': problems[:3]}
+
+
 def extra(rep, tier, seed, budget):
     from bounded import author_options as _ao
     _ao.integrate(rep)
+    from pyvc.cli import write_replay as _wr
+    _ft = native_fresh_ticket_each_evaluation()
+    rep.bounded.append(_ft)
+    if not _ft['ok']:
+        rep.violations.append({'key': 'bounded:stale_ticket', 'what': 'the ticket gate judged a stale copy of the ticket: %s'
+                               % str(_ft['problems'][0])[:200], 'replay': _wr(rep.pid, 'bounded:stale_ticket', _ft),
+                               'input': _ft['problems'][0], 'noinput': False})
 
 
 META = {
